@@ -4,12 +4,12 @@ var kctlPkgs = []string{"controller", "internal/allocator", "internal/allocator/
 
 var engines = []engine{
 	{
-		Name: "kctl", TestPkg: "controller", TestName: "TestVerifKctl", SimPkgs: kctlPkgs, Rules: "r1",
+		Name: "kctl", Skip: "_gconc", TestPkg: "controller", TestName: "TestVerifKctl", SimPkgs: kctlPkgs, Rules: "r1",
 		Harness:  []string{"controller", "internal/allocator", "internal/k8s/controllers"},
 		StubTest: []string{"controller"},
 	},
 	{
-		Name: "kspk", TestPkg: "speaker", TestName: "TestVerifKspk", SimPkgs: kspkPkgs, Rules: "r1,r4", Subst: "harness/speaker_subst.json",
+		Name: "kspk", Skip: "_gconc", TestPkg: "speaker", TestName: "TestVerifKspk", SimPkgs: kspkPkgs, Rules: "r1,r4", Subst: "harness/speaker_subst.json",
 		Harness:  []string{"speaker", "internal/layer2", "internal/k8s/controllers"},
 		StubTest: []string{"speaker"},
 	},
